@@ -30,6 +30,7 @@ func (d *Drv) Exec(op *Op, x *Exp, opIdx int) (res Result) {
 	}
 	d.cbSeen = nil
 	d.triedStructural = false
+	d.reusedFilter = false
 	d.curExch = nil
 	d.leaked = false
 	d.Stat.Ops[op.K]++
@@ -95,6 +96,7 @@ func (d *Drv) batchCbPtrs(op *Op, x *Exp, cs []int) func(ecs.Entity, typed.Ptrs)
 		}
 		d.structuralRejected("batch callback")
 		d.poke("batch callback of " + op.K.String())
+		d.reuseFilter(op)
 		d.leakQuery(op)
 		if !d.W.Alive(h) {
 			d.viol("C06", "batch-cb-dead", "batch callback for dead entity %v", h)
@@ -122,8 +124,47 @@ func (d *Drv) batchCbEnt(x *Exp) func(ecs.Entity) {
 		}
 		d.structuralRejected("batch callback")
 		d.poke("batch callback of " + x.Op.K.String())
+		d.reuseFilter(x.Op)
 		d.leakQuery(x.Op)
 	}
+}
+
+// reuseFilter uses the filter object the running batch operation was created from, from inside its callback (first
+// invocation only): a query with other per-query targets is opened, iterated and closed, and another Batch value is
+// derived from it. All of that is legal on a locked world and must not disturb the operation in progress.
+func (d *Drv) reuseFilter(op *Op) {
+	if d.reusedFilter || op.SF < 0 || op.SF >= len(d.SF) || !d.Headroom() {
+		return
+	}
+	d.reusedFilter = true
+	sf := &d.SF[op.SF]
+	f := sf.twin
+	if op.Cached {
+		f = sf.inst
+	}
+	if f == nil {
+		return
+	}
+	spec := &d.M.Filters[op.SF].Spec
+	// other targets than the running batch uses: the zero entity for every free relation component
+	var other []RelT
+	for _, c := range spec.Required().List() {
+		if u.Types[c].IsRel && !relComps(spec.Rels).Has(c) {
+			other = append(other, RelT{C: c, T: ZeroE})
+		}
+	}
+	d.Stat.FilterReuse++
+	q := f.Query(d.rels(other, d.filterOrder(spec), d.opIdx%3))
+	n := 0
+	for q.Next() {
+		n++
+		if n > d.limit() {
+			q.Close()
+			d.viol("C03", "query-runaway", "query of the running batch's filter object inside its callback exceeded %d steps", d.limit())
+			break
+		}
+	}
+	_ = f.Batch(d.rels(other, d.filterOrder(spec), (d.opIdx+1)%3))
 }
 
 // leakQuery opens the op's Leak query from inside a batch-creation callback (first invocation
@@ -216,6 +257,51 @@ func (d *Drv) structuralRejected(where string) {
 			}
 		}
 	}
+	// otherwise one row of the locked-world table (every structural entry point), applied to an alive entity that the
+	// running operation does not touch
+	if rows := lockedRows(); len(rows) > 0 && d.opIdx%4 != 3 {
+		sel := map[EID]bool{}
+		for _, e := range d.cur.Sel {
+			sel[e] = true
+		}
+		for e := len(d.M.Ents) - 1; e >= d.M.Epoch0; e-- {
+			st := &d.M.Ents[e]
+			if !st.Alive || sel[EID(e)] || EID(e) == d.cur.Op.E || e >= len(d.H) || d.H[e].IsZero() || st.Mask == 0 || st.Mask.Len() >= u.N-3 {
+				continue
+			}
+			pop := &Op{K: KMisuse, SF: -1, Tuple: -1, E: EID(e), N: d.opIdx}
+			l := st.Mask.List()
+			pop.Rem = []int{l[d.opIdx%len(l)]}
+			for c := 0; c < u.N; c++ {
+				if !st.Mask.Has(c) && !u.Types[c].IsRel {
+					pop.Add = []int{c}
+					break
+				}
+			}
+			if len(pop.Add) == 0 {
+				break
+			}
+			mc := &MisuseTable[rows[(d.opIdx/4)%len(rows)]]
+			what = mc.Name
+			d.Stat.NestedRows++
+			func() {
+				defer func() {
+					if p := recover(); p != nil {
+						if _, skip := p.(skipMisuse); skip {
+							what = ""
+							return
+						}
+						panic(p)
+					}
+				}()
+				mc.Run(d, pop, d.H[e], ecs.Entity{})
+			}()
+			if what != "" {
+				return // returned normally: reported by the deferred handler
+			}
+			break
+		}
+	}
 	switch d.opIdx % 4 {
 	case 0:
 		what = "World.NewEntity"
@@ -230,6 +316,20 @@ func (d *Drv) structuralRejected(where string) {
 		what = "World.NewEntities"
 		d.W.NewEntities(2, nil)
 	}
+}
+
+var lockedRowsCache []int
+
+// lockedRows lists the rows of the misuse table that are structural operations on a locked world.
+func lockedRows() []int {
+	if lockedRowsCache == nil {
+		for i := range MisuseTable {
+			if MisuseTable[i].Class == "locked" {
+				lockedRowsCache = append(lockedRowsCache, i)
+			}
+		}
+	}
+	return lockedRowsCache
 }
 
 // batchOf builds the ecs.Batch for a batch op.
